@@ -163,7 +163,7 @@ def pool_specs(ctx):
     if ctx.quick:
         return [(W, 40, mc.make_settings(rnd, 40)) for W in (1, 2, 4, 16)]
     specs = [(W, n, mc.make_settings(rnd, n)) for W in (1, 2, 3, 4, 8, 16) for n in (40, 300)]
-    return specs + [(rnd.choice([2, 5, 16]), rnd.choice([7, 60, 150]), mc.make_settings(rnd, 1)) for _ in range(8)]
+    return specs + [(rnd.choice([2, 3, 5, 7, 12, 16]), rnd.choice([7, 60, 150, 400]), mc.make_settings(rnd, 1)) for _ in range(40)]
 
 
 def correspondence(ctx, proofs_ok=True):
